@@ -69,7 +69,9 @@ def run(ctx: Ctx):
                         "charging never lowers the level (sign of rates: data)", "the running-balance identity as a float equation"]
 
 
-def mechatronics_method(ctx: Ctx, fn, cname, meth, tick, kind):
+def mechatronics_method(ctx: Ctx, fn, cname, meth, tick, kind, bounds: bool = True):
+    """bounds=False (C05): only the bookkeeping clauses (both updates present, booked = delta); the clamps and the dependence on
+    the duration are C04's own clauses."""
     veh = fn.params[1]
     n = 0
     for p in flow.paths(fn.node):
@@ -111,6 +113,8 @@ def mechatronics_method(ctx: Ctx, fn, cname, meth, tick, kind):
                   f"{inst}: booked amount = {'old - new' if kind == 'down' else 'new - start'} of the stored level (same energy type)", fn, p.end,
                   why_bad=f"stores {flow.dump(new)[:80]} under {k1} but books {flow.dump(booked)[:120]} under {k2}",
                   construct=f"{inst}:booked")
+        if not bounds:
+            continue
         # clamp
         if kind == "down":
             ok = isinstance(new, ast.Call) and flow.dump(new.func) == "max" and len(new.args) == 2 and any(
@@ -330,6 +334,8 @@ def quantum(ctx: Ctx):
         pw = f"min(" in inc and plug in inc
         ctx.check(same_q, "D5", "BD.quantum", "the energy increment multiplies power by the same quantum that advances the clock", fn, loop,
                   why_bad=f"increment {inc[:160]} does not use the quantum {flow.dump(q)[:60]}", construct="TabularPowercurve.charge:increment-quantum")
+        if not pw and any(isinstance(a_, ast.Assign) and any(isinstance(t_, ast.Subscript) for t_ in a_.targets) and plug in flow.dump(a_) for a_ in ast.walk(fn.node)):
+            raise AnalysisError(f"TabularPowercurve.charge: the plug power `{plug}` bounds the curve through an array store, a form this rule does not evaluate")
         ctx.check(pw, "D5", "BD.quantum", f"charging power is min(curve power, plug power `{plug}`)", fn, loop,
                   why_bad=f"increment {inc[:160]}", construct="TabularPowercurve.charge:power-bound")
 
